@@ -160,6 +160,8 @@ class CallMixin:
             return v[1]
         if isinstance(v, tuple) and len(v) == 2 and v[0] == "awaitable":
             return v[1](node)
+        if hasattr(v, "thunk"):
+            return v.thunk(node)
         raise Unsupported(f"await of {v!r}")
 
     def await_point(self, node):
